@@ -451,6 +451,200 @@ def oracle_c08(res, lf=None):
     return {'failures': fails, 'distinct': distinct, 'samples': samples, 'stats': stats}
 
 
+import os, subprocess, json, tempfile
+BUILD = os.path.join(os.path.dirname(os.path.dirname(os.path.abspath(__file__))), 'build')
+
+
+def run_ref(lines):
+    """run the libprotobuf reference harness on ad-hoc case lines; returns its output lines"""
+    os.makedirs(os.path.join(BUILD, 'run'), exist_ok=True)
+    fd, path = tempfile.mkstemp(suffix='.case', dir=os.path.join(BUILD, 'run'))
+    with os.fdopen(fd, 'w') as f:
+        f.write('\n'.join(lines) + '\n')
+    try:
+        r = subprocess.run([os.path.join(BUILD, 'ref_harness'), path], stdout=subprocess.PIPE, stderr=subprocess.DEVNULL, text=True, timeout=600)
+        return r.stdout.split('\n')
+    finally:
+        os.remove(path)
+
+
+def json_diff(a, b, path=''):
+    if type(a) != type(b):
+        return '%s: %s vs %s' % (path, str(a)[:60], str(b)[:60])
+    if isinstance(a, dict):
+        for k in sorted(set(a) | set(b)):
+            if a.get(k) != b.get(k):
+                return json_diff(a.get(k), b.get(k), path + '/' + str(k))
+    if isinstance(a, list):
+        if len(a) != len(b):
+            return '%s: %d vs %d elements' % (path, len(a), len(b))
+        for i, (x, y) in enumerate(zip(a, b)):
+            if x != y:
+                return json_diff(x, y, '%s[%d]' % (path, i))
+    return '%s: %s vs %s' % (path, str(a)[:60], str(b)[:60])
+
+
+RULES.update({
+    'c03': 'random schemas x well-formed messages packed by protobuf-c; the bytes must equal the canonical encoding produced by an '
+           'independent encoder (shortest varints, zig-zag, little-endian, packed iff flagged, descriptor order, unknown last) and '
+           'libprotobuf (DynamicMessage built from the same schema) must parse them to the same value; distinct by encoding hash',
+    'c04': 'messages re-encoded by an independent encoder in non-canonical but valid ways (field order shuffled, packed/unpacked '
+           'flipped and mixed, varints/keys/lengths padded, stale scalar occurrences, empty packed records, unknown fields '
+           'interleaved); protobuf-c result compared with libprotobuf result on the same bytes; distinct by input hash',
+    'c09': 'pairs (old, new) of schemas, old = new minus a random subset of fields per message; new-schema messages encoded, '
+           'parsed and re-serialised by protobuf-c under the OLD schema, then decoded by libprotobuf under the NEW schema and '
+           'compared with the original; non-trivial = at least one field of the message type was removed; distinct by input hash',
+    'c10': 'as C04 plus: singular sub-messages split over 2-3 occurrences, several members of one oneof in sequence; compared '
+           'with libprotobuf; non-trivial = every case; distinct by input hash',
+})
+
+
+def compare_with_ref(res, lf, stats):
+    fails, distinct, samples = [], [], []
+    ref = res.get('ref') or []
+    for i, l, out in iter_ops(res, lf):
+        t = l.split()
+        if t[0] != 'unpack':
+            continue
+        r = ref[i] if i < len(ref) else ''
+        if out.startswith('CRASH') or out == '<missing>':
+            fails.append((i, 'crash (%s)' % out))
+            continue
+        if not r:
+            continue
+        stats['compared'] = stats.get('compared', 0) + 1
+        if r.startswith('fail'):
+            stats['ref_rejects'] = stats.get('ref_rejects', 0) + 1
+            continue          # not a valid encoding for the reference: outside the quantifier
+        rinit = r.startswith('ok init=1')
+        if rinit and not out.startswith('ok'):
+            fails.append((i, 'a valid encoding accepted by the reference implementation was rejected'))
+            continue
+        if not rinit:
+            if out.startswith('ok'):
+                fails.append((i, 'accepted although the reference finds a required field missing'))
+            continue
+        sch = schema_at(res, i)
+        m, _ = pbgen.parse_lit(sch, out[3:])
+        ja = pbgen.sem_json(sch, m)
+        jr = json.loads(r.split(' ', 2)[2])
+        if ja != jr:
+            fails.append((i, 'parsed value differs from the reference implementation: ' + json_diff(ja, jr)))
+        distinct.append(h(pbgen_block(res, i)[0] + t[1] + t[2]))
+        if len(samples) < 3 and len(l) < 200:
+            samples.append({'op': l, 'impl': out[:200], 'ref': r[:200]})
+    return {'failures': fails, 'distinct': distinct, 'samples': samples, 'stats': stats}
+
+
+def oracle_c04(res, lf=None):
+    return compare_with_ref(res, lf, {})
+
+
+def oracle_c10(res, lf=None):
+    return compare_with_ref(res, lf, {})
+
+
+def oracle_c03(res, lf=None):
+    fails, distinct, samples = [], [], []
+    stats = {'packed': 0, 'ref_decoded': 0}
+    # stage 1: canonical-encoding equality; collect bytes per schema block for the reference
+    pending = []     # (case line idx, schema start idx, ty, hex, orig)
+    for i, l, out in iter_ops(res, lf):
+        if not l.startswith('pack '):
+            continue
+        if out.startswith('CRASH') or out == '<missing>':
+            fails.append((i, 'crash (%s)' % out))
+            continue
+        stats['packed'] += 1
+        sch = schema_at(res, i)
+        orig, _ = pbgen.parse_lit(sch, l[5:])
+        d = kv(out)
+        canon = pbgen.encode(sch, orig).hex()
+        if d.get('pack') != canon:
+            fails.append((i, 'serialisation is not the canonical Protocol Buffers encoding of the message (first difference at byte %d)'
+                          % next((k // 2 for k in range(0, min(len(canon), len(d.get('pack', ''))), 2) if canon[k:k + 2] != d.get('pack', '')[k:k + 2]), min(len(canon), len(d.get('pack', ''))) // 2)))
+        pending.append((i, int(pbgen_block(res, i)[0]), orig['ty'], d.get('pack', ''), orig))
+        if len(d.get('pack', '')) >= 4:
+            distinct.append(h(d['pack']))
+        if len(samples) < 3 and len(l) < 300:
+            samples.append({'op': l, 'impl': out[:200]})
+    # stage 2: the reference decodes protobuf-c's bytes
+    lines2, idxmap = [], []
+    last_block = None
+    for i, blk, ty, hx, orig in pending:
+        if blk != last_block:
+            j = blk
+            lines2.append(res['lines'][j]); idxmap.append(None)
+            j += 1
+            while j < len(res['lines']) and res['lines'][j].startswith(('msg ', 'f ')):
+                lines2.append(res['lines'][j]); idxmap.append(None)
+                j += 1
+            last_block = blk
+        lines2.append('ref %d X%s' % (ty, hx)); idxmap.append((i, orig))
+    if lines2 and os.path.exists(os.path.join(BUILD, 'ref_harness')):
+        outs = run_ref(lines2)
+        for k, im in enumerate(idxmap):
+            if im is None:
+                continue
+            i, orig = im
+            r = outs[k] if k < len(outs) else ''
+            stats['ref_decoded'] += 1
+            sch = schema_at(res, i)
+            if not r.startswith('ok init=1'):
+                fails.append((i, 'the reference implementation does not accept the bytes produced by pack (%s)' % r[:40]))
+                continue
+            ja = pbgen.sem_json(sch, orig)
+            jr = json.loads(r.split(' ', 2)[2])
+            if ja != jr:
+                fails.append((i, 'the reference implementation reads different values from the packed bytes: ' + json_diff(ja, jr)))
+    return {'failures': fails, 'distinct': distinct, 'samples': samples, 'stats': stats}
+
+
+def oracle_c09(res, lf=None):
+    fails, distinct, samples = [], [], []
+    stats = {'cases': 0, 'fields_unknown_to_old': 0, 'ref_decoded': 0}
+    lines2, idxmap = [], []
+    lines = res['lines']
+    for i, l, out in iter_ops(res, lf):
+        if not l.startswith('acc '):
+            continue
+        if out.startswith('CRASH') or out == '<missing>':
+            fails.append((i, 'crash (%s)' % out))
+            continue
+        if i == 0 or not lines[i - 1].startswith('#new '):
+            continue
+        stats['cases'] += 1
+        meta = json.loads(lines[i - 1][5:])
+        if not out.startswith('ok'):
+            fails.append((i, 'data of the newer schema was rejected by the parser built for the older schema'))
+            continue
+        d = kv(out)
+        ty = int(l.split()[1])
+        lines2 += meta['schema']; idxmap += [None] * len(meta['schema'])
+        lines2.append('ref %d X%s' % (ty, d.get('pack', ''))); idxmap.append((i, meta))
+        distinct.append(h(l))
+        if len(samples) < 3 and len(l) < 200:
+            samples.append({'op': l, 'impl': out[:200]})
+    if lines2 and os.path.exists(os.path.join(BUILD, 'ref_harness')):
+        outs = run_ref(lines2)
+        for k, im in enumerate(idxmap):
+            if im is None:
+                continue
+            i, meta = im
+            r = outs[k] if k < len(outs) else ''
+            stats['ref_decoded'] += 1
+            new = schema_from_lines(meta['schema'], 0)
+            orig, _ = pbgen.parse_lit(new, meta['lit'])
+            if not r.startswith('ok'):
+                fails.append((i, 'bytes re-serialised under the old schema are not valid for the new schema (%s)' % r[:40]))
+                continue
+            ja = pbgen.sem_json(new, orig)
+            jr = json.loads(r.split(' ', 2)[2])
+            if ja != jr:
+                fails.append((i, 'after parse + re-serialise under the old schema the new schema reads different data: ' + json_diff(ja, jr)))
+    return {'failures': fails, 'distinct': distinct, 'samples': samples, 'stats': stats}
+
+
 def match_known(known, pid, what, payload):
     """an OPEN finding of known_findings.json that matches this failure, else None"""
     for k in known.get('findings', []):
